@@ -258,6 +258,9 @@ def run(R, job):
         lambda: J("Foo", fixed(T("em", dep())), p=T("div", T("p", J("Baz", q=T("i", dep()))))),
         lambda: J("Foo", T("ul", T("li", dep(), "x"), T("li", J("Bar", icon=T("b", dep()))))),
         lambda: J("Foo", dep(), dep(), class_="c", data_x=3, style={"color": "red"}),
+        # different metadata nodes that share a name (two versions of one library, on a prop and on a child): every one is carried
+        lambda: J("Foo", T("div", core.HTMLDependency("widget", "2.3.0")), icon=J("Bar", core.HTMLDependency("widget", "1.0.0"))),
+        lambda: J("Foo", core.HTMLDependency("w", "1.0"), core.HTMLDependency("w", "1.1"), T("p", core.HTMLDependency("w", "1.0", head="<!--other-->"))),
     ]
     for it in range(n + len(directed)):
         counter[0] = 0
